@@ -31,6 +31,8 @@ mod types;
 #[cfg(test)]
 pub(crate) mod tests;
 
+#[cfg(vhdl_ls_rust_hdl_verif)]
+pub use root::verif_hooks as root_verif_hooks;
 pub(crate) use root::{Library, LockedUnit};
 
 pub use self::root::{DesignRoot, EntHierarchy};
